@@ -547,6 +547,9 @@ func (db *DB) close() (err error) {
 
 	db.blockWrites.Store(1)
 	db.isClosed.Store(1)
+	if y.VerifEnabled {
+		y.VerifEvent("close.blocked")
+	}
 
 	if db.closers.valueGC != nil {
 		// Stop value GC first.
@@ -555,6 +558,10 @@ func (db *DB) close() (err error) {
 
 	// Stop writes next.
 	db.closers.writes.SignalAndWait()
+	if y.VerifEnabled {
+		y.VerifEvent("close.writerStopped")
+		y.VerifGate("close.beforeCloseWriteCh")
+	}
 
 	// Don't accept any more write.
 	close(db.writeCh)
@@ -600,7 +607,13 @@ func (db *DB) close() (err error) {
 		}
 	}
 	db.stopMemoryFlush()
+	if y.VerifEnabled {
+		y.VerifEvent("close.flushed")
+	}
 	db.stopCompactions()
+	if y.VerifEnabled {
+		y.VerifEvent("close.compactorsStopped")
+	}
 
 	// Force Compact L0
 	// We don't need to care about cstatus since no parallel compaction is running.
@@ -620,6 +633,9 @@ func (db *DB) close() (err error) {
 	// Now close the value log.
 	if vlogErr := db.vlog.Close(); vlogErr != nil {
 		err = y.Wrap(vlogErr, "DB.Close")
+	}
+	if y.VerifEnabled {
+		y.VerifEvent("close.vlogClosed")
 	}
 
 	db.opt.Infof(db.LevelsToString())
@@ -663,6 +679,9 @@ func (db *DB) close() (err error) {
 	}
 	if syncErr := db.syncDir(db.opt.ValueDir); err == nil {
 		err = y.Wrap(syncErr, "DB.Close")
+	}
+	if y.VerifEnabled {
+		y.VerifEvent("close.done")
 	}
 
 	return err
@@ -806,6 +825,9 @@ func (db *DB) writeToLSM(b *request) error {
 
 	for i, entry := range b.Entries {
 		var err error
+		if y.VerifEnabled {
+			y.VerifGate("mem.beforePut", entry.Key)
+		}
 		if entry.skipVlogAndSetThreshold(db.valueThreshold()) {
 			// Will include deletion / tombstone case.
 			err = db.mt.Put(entry.Key,
@@ -832,6 +854,9 @@ func (db *DB) writeToLSM(b *request) error {
 		if err != nil {
 			return y.Wrapf(err, "while writing to memTable")
 		}
+		if y.VerifEnabled {
+			y.VerifEvent("mem.put", entry.Key, entry.meta, entry.valThreshold, len(entry.Value))
+		}
 	}
 	if db.opt.SyncWrites {
 		return db.mt.SyncWAL()
@@ -852,10 +877,16 @@ func (db *DB) writeRequests(reqs []*request) error {
 		}
 	}
 	db.opt.Debugf("writeRequests called. Writing to value log")
+	if y.VerifEnabled {
+		y.VerifGate("writer.batch", len(reqs))
+	}
 	err := db.vlog.write(reqs)
 	if err != nil {
 		done(err)
 		return err
+	}
+	if y.VerifEnabled {
+		y.VerifEvent("writer.vlogDone", len(reqs))
 	}
 
 	db.opt.Debugf("Writing to memtable")
@@ -890,6 +921,9 @@ func (db *DB) writeRequests(reqs []*request) error {
 	db.opt.Debugf("Sending updates to subscribers")
 	db.pub.sendUpdates(reqs)
 
+	if y.VerifEnabled {
+		y.VerifEvent("writer.applied", len(reqs))
+	}
 	done(nil)
 	db.opt.Debugf("%d entries written", count)
 	return nil
@@ -909,6 +943,9 @@ func (db *DB) sendToWriteCh(entries []*Entry) (*request, error) {
 		return nil, ErrTxnTooBig
 	}
 
+	if y.VerifEnabled {
+		y.VerifGate("send.beforeChan", len(entries))
+	}
 	// We can only service one request because we need each txn to be stored in a contiguous section.
 	// Txns should not interleave among other txns or rewrites.
 	req := requestPool.Get().(*request)
@@ -1042,6 +1079,9 @@ func (db *DB) ensureRoomForWrite() error {
 		if err != nil {
 			return y.Wrapf(err, "cannot create new mem table")
 		}
+		if y.VerifEnabled {
+			y.VerifEvent("mem.rotate", len(db.imm))
+		}
 		// New memtable is empty. We certainly have room.
 		return nil
 	default:
@@ -1101,9 +1141,15 @@ func (db *DB) handleMemTableFlush(mt *memTable, dropPrefixes [][]byte) error {
 	if err != nil {
 		return y.Wrap(err, "error while creating table")
 	}
+	if y.VerifEnabled {
+		y.VerifEvent("flush.table", fileID)
+	}
 	// We own a ref on tbl.
 	err = db.lc.addLevel0Table(tbl) // This will incrRef
 	_ = tbl.DecrRef()               // Releases our ref.
+	if y.VerifEnabled {
+		y.VerifEvent("flush.published", fileID, err)
+	}
 	return err
 }
 
@@ -1115,6 +1161,9 @@ func (db *DB) flushMemtable(lc *z.Closer) {
 	for mt := range db.flushChan {
 		if mt == nil {
 			continue
+		}
+		if y.VerifEnabled {
+			y.VerifGate("flush.start")
 		}
 
 		for {
@@ -1135,6 +1184,9 @@ func (db *DB) flushMemtable(lc *z.Closer) {
 			y.AssertTrue(mt == db.imm[0])
 			db.imm = db.imm[1:]
 			mt.DecrRef() // Return memory.
+			if y.VerifEnabled {
+				y.VerifEvent("flush.done", len(db.imm))
+			}
 			// unlock
 			db.lock.Unlock()
 			break
@@ -1655,6 +1707,9 @@ func (db *DB) blockWrite() error {
 		return ErrBlockedWrites
 	}
 
+	if y.VerifEnabled {
+		y.VerifEvent("drop.blocked")
+	}
 	// Make all pending writes finish. The following will also close writeCh.
 	db.closers.writes.SignalAndWait()
 	db.opt.Infof("Writes flushed. Stopping compactions now...")
@@ -1689,6 +1744,9 @@ func (db *DB) prepareToDrop() (func(), error) {
 				db.opt.Errorf("writeRequests: %v", err)
 			}
 			db.stopMemoryFlush()
+			if y.VerifEnabled {
+				y.VerifEvent("drop.prepared")
+			}
 			return func() {
 				db.opt.Infof("Resuming writes")
 				db.startMemoryFlush()
@@ -1745,10 +1803,16 @@ func (db *DB) dropAll() (func(), error) {
 	if err != nil {
 		return resume, y.Wrapf(err, "cannot open new memtable")
 	}
+	if y.VerifEnabled {
+		y.VerifEvent("dropAll.memtablesRemoved")
+	}
 
 	num, err := db.lc.dropTree()
 	if err != nil {
 		return resume, err
+	}
+	if y.VerifEnabled {
+		y.VerifEvent("dropAll.treeDropped", num)
 	}
 	db.opt.Infof("Deleted %d SSTables. Now deleting value logs...\n", num)
 
@@ -1757,6 +1821,9 @@ func (db *DB) dropAll() (func(), error) {
 		return resume, err
 	}
 	db.lc.nextFileID.Store(1)
+	if y.VerifEnabled {
+		y.VerifEvent("dropAll.vlogDropped", num)
+	}
 	db.opt.Infof("Deleted %d value log files. DropAll done.\n", num)
 	db.blockCache.Clear()
 	db.indexCache.Clear()
@@ -1811,6 +1878,9 @@ func (db *DB) DropPrefix(prefixes ...[]byte) error {
 			return err
 		}
 		memtable.DecrRef()
+		if y.VerifEnabled {
+			y.VerifEvent("dropPrefix.memtableFlushed")
+		}
 	}
 	db.stopCompactions()
 	defer db.startCompactions()
@@ -1823,6 +1893,9 @@ func (db *DB) DropPrefix(prefixes ...[]byte) error {
 	// Drop prefixes from the levels.
 	if err := db.lc.dropPrefixes(filtered); err != nil {
 		return err
+	}
+	if y.VerifEnabled {
+		y.VerifEvent("dropPrefix.levelsDone")
 	}
 	db.opt.Infof("DropPrefix done")
 	return nil
